@@ -122,7 +122,7 @@ def perturb_canon(c, r):
     if t == "qc":
         ops = c["ops"]
         par = [i for i, o in enumerate(ops) if o[1]]
-        if par and r.random() < 0.7:          # same gate sequence, another parameter value
+        if par and r.random() < 0.85:         # same gate sequence, another parameter value
             o = ops[r.choice(par)]
             k = round(float(o[1][0]["r"]) / Lt.HALF_PI) if isinstance(o[1][0], dict) and o[1][0].get("t") == "float" else 0
             o[1][0] = Lt.flt(Lt.HALF_PI * ((k + r.randrange(1, 4)) % 4))
@@ -404,7 +404,8 @@ class Generator:
         conn = self._conn(n)
         if r.random() < self.cfg["p_invalid"] * 0.5:
             n = r.choice([1, 7])
-        first = self.need_qc(ex, n, extended=0.6) if op.endswith("compress_preparation_circuit") else self.need_stab(ex, n, pre)
+        first = (self.need_qc(ex, n, extended=self.cfg.get("qc_extended", 0.6)) if op.endswith("compress_preparation_circuit")
+                 else self.need_stab(ex, n, pre))
         if conn == "all" and r.random() < 0.3:
             return self._call(op, [first])
         if r.random() < 0.3:
@@ -1149,7 +1150,7 @@ class Generator:
             if not slots:
                 break
             changed = False
-            for A in r.sample(slots, min(len(slots), r.choice([1, 1, 2, len(slots), len(slots)]))):
+            for A in r.sample(slots, min(len(slots), r.choice([1, 1, 1, 2, len(slots)]))):
                 nv = perturb_canon(A["lit"], r)
                 if nv is not None:
                     A["lit"] = nv
@@ -1171,6 +1172,9 @@ class Generator:
         self.cfg["length"] = 0
         if fam in ("graph", "stab", "lc", "lin", "rot"):
             self.cfg["p_reuse"] = 0.9      # work on few objects: memo-invalidation needs query / change / query on ONE object
+        if opname == "prep.compress_preparation_circuit":
+            self.cfg["qc_extended"] = 0.95  # circuits with parameterised Clifford gates: neighbours differ in a parameter only
+            self.cfg["p_reuse"] = 0.2
         n = (self._job or {}).get("n")
         if n:
             if fam == "tomo" and ("FST" in opname or "fst" in opname or "full_state" in opname):
